@@ -748,6 +748,11 @@ def run(prop, tier, seed):
                 scns.append(add_bystanders(rng, s0))
             for _ in range(n // 6):
                 scns.append(add_bystanders(rng, scen.same_file_scenario(rng, opts=dict(rng.choice([{"b": 1}, {}])), git=rng.random() < 0.3)))
+            for _ in range(n // 6):
+                # --dry-run over sections that move, copy, create and delete files (alone in their directory, so that a removal
+                # would take the directory with it): nothing at all may be touched
+                kinds_ = rng.choice([["rename"], ["rename", "delete"], ["copy", "add"], ["delete"], ["rename", "change"]])
+                scns.append(add_bystanders(rng, scen.gen_scenario(rng, nsec=len(kinds_), kinds=kinds_, opts=dict(rng.choice([{"dry": 1}, {"dry": 1, "b": 1}, {"dry": 1, "E": 1}])), drift=0)))
             for _ in range(n // 5):
                 # the file to patch is named on the command line; a file with the name the headers carry stands by
                 kind = rng.choice(["change", "change", "rename", "delete", "copy"])
